@@ -272,12 +272,20 @@ def gen_attr(rnd, depth):
         from xdsl.dialects.builtin import BoolAttr, StridedLayoutAttr
 
         return rnd.choice([UnitAttr(), NoneAttr(), UnknownLoc(), FileLineColLoc(StringAttr("f.mlir"), IntAttr(3), IntAttr(7)), SymbolRefAttr("a"), SymbolRefAttr("a b", ["c", "d-e"]),
+                           # names that are ALMOST bare identifiers (a bare identifier followed / preceded by a newline or space, empty, digits first, dots and dollars)
+                           SymbolRefAttr("foo\n"), SymbolRefAttr("foo", ["bar\n", "baz"]), SymbolRefAttr("\nfoo"), SymbolRefAttr("foo "), SymbolRefAttr(""),
+                           SymbolRefAttr("9a"), SymbolRefAttr("a.b$c"), SymbolRefAttr("a\n\n"),
                            FileLineColLoc(StringAttr(""), IntAttr(0), IntAttr(0)), BoolAttr(False, i1), BoolAttr(True, i1),
                            StridedLayoutAttr([rnd.choice([0, 1, -3, None]) for _ in range(rnd.randrange(0, 3))], rnd.choice([0, 5, -1, None])),
                            AffineMapAttr(AffineMap.identity(2)), AffineMapAttr(AffineMap.from_callable(lambda i, j: (i + 2 * j, j % 3, i // 2)))])
     if k in (8, 9):
         return ArrayAttr([gen_attr(rnd, depth - 1) for _ in range(rnd.randrange(0, 4))])
-    return DictionaryAttr({rnd.choice(["a", "b c", "x.y", "_z", "9"]) + str(i): gen_attr(rnd, depth - 1) for i in range(rnd.randrange(0, 3))})
+    keys = ["a", "b c", "x.y", "_z", "9"]
+    d = {rnd.choice(keys) + str(i): gen_attr(rnd, depth - 1) for i in range(rnd.randrange(0, 3))}
+    if rnd.random() < 0.3:
+        # keys that are a bare identifier plus trailing / leading whitespace, next to the bare identifier itself
+        d.update({k: gen_attr(rnd, 0) for k in rnd.sample(["k", "k\n", "\nk", "k ", "k\t", ""], rnd.randrange(1, 4))})
+    return DictionaryAttr(d)
 
 
 def explore(tier, seed, shard=0, shards=1):
